@@ -324,10 +324,17 @@ def r5_points(ctx, repo, cname, k):
     import math
     from fractions import Fraction
     checked = 0
-    for m in (2, 3, 4, 5):
+    thorough = getattr(ctx, "tier", None) == "thorough" or getattr(getattr(ctx, "ctx", None), "tier", None) == "thorough"
+    for m in ((2, 3, 4, 5, 6, 7) if thorough else (2, 3, 4, 5)):
         n = m + k - 1
-        for variant in (0, 1):
-            xs = [float(Fraction(2 * j + 3, 2 * n + 7)) if variant == 0 else 0.15 + 0.7 * ((j * 7) % 10) / 10.0 for j in range(n)]
+        for variant in (range(8) if thorough else (0, 1)):
+            if variant == 0:
+                xs = [float(Fraction(2 * j + 3, 2 * n + 7)) for j in range(n)]
+            elif variant == 1:
+                xs = [0.15 + 0.7 * ((j * 7) % 10) / 10.0 for j in range(n)]
+            else:
+                # low-discrepancy points of the box (fractional parts of multiples of square roots of primes)
+                xs = [((variant * (j + 1) * math.sqrt((2, 3, 5, 7, 11, 13, 17, 19)[(j + variant) % 8])) % 1.0) * 0.98 + 0.01 for j in range(n)]
             try:
                 val, env, it = eval_box(cls, m, n, [I(x) for x in xs])
             except (DomainError, Unsupported, Exception):
